@@ -151,10 +151,11 @@ def rule_a(ctx):
         else:
             # after the loop: needs both flags
             govs = set()
-            for (a, s) in sfp.cdeps_transitive(bb):
-                truth, src = edge_is_true(sfp, a, s)
-                if src and src[0] == "place" and is_bare(src[1]) and truth is True:
-                    govs.add(sfp.local_name(src[1]["l"]))
+            for flag in ("height_zero", "overflow_hidden"):
+                cut = edges_where(sfp, lambda truth, src, a, s: truth is True and src and src[0] == "place" and
+                                  is_bare(src[1]) and sfp.local_name(src[1]["l"]) == flag)
+                if unreachable_without_edges(sfp, bb, cut):
+                    govs.add(flag)
             kinds.add("idiom")
             ctx.check({"height_zero", "overflow_hidden"} <= govs, "C18-A", "Display::None←height0+overflow-hidden", st["span"], sfp.id,
                       "governed by %s" % sorted(map(str, govs)))
